@@ -360,3 +360,5 @@ Corollary parse_fmt_sec_iff t : text_range t = true ->
 Proof.
   intros Hr. rewrite parse_fmt_sec by exact Hr. split; intros H; [injection H as H; lia|rewrite H; f_equal; lia].
 Qed.
+
+Close Scope Z_scope.
